@@ -27,7 +27,7 @@ with open(f"{V}/README.md", "w") as f:
             "`notes.md` (the agent's account: what it needs to manifest) and `meta.json` (what was confirmed: demonstration without / with the change, the test suite's failing set unchanged, "
             "and which checks fired *at the time the change was first evaluated*). The agents saw only the property's text and a scratch worktree of /repo - nothing of /verif.\n\n"
             "Columns: *first evaluation* = how the machinery of that moment fared (own check / another property's check / missed); *now* = the first report of the property's own check "
-            "on today's machinery (`tools/seed_matrix.py`, `selftest/run.py` re-run all of them). Round 1 = suffix A/B, round 2 = C/D (asked for changes that need something specific to manifest), round 3 = E/F (boundary and case-analysis changes, behaviour-changing clean-ups), round 4 = G/H (two cooperating sites, multi-step sequences, faults at one point, unusual input shapes), round 5 = I/J (changes a reviewer would wave through: tidy-ups, small features and performance commits whose violation needs a particular configuration, a falsy class object, a non-NFKC key, nested blocks, a round trip through the store ...), round 6 = K/L (Python semantics a reader skims over: one-shot iterators, shared mutable state, `is` vs `==`, truthiness, `finally`, string prefixes, coarse memo keys, off-by-one; collaborators away from the obvious file), round 7 = M/N (structural changes: a responsibility moved between functions or paths, a fast path whose condition is too wide, hoisted or outliving state, reordered steps, a library call with other edge cases, a wrong-branch shim), round 8 = O (six changes at the start of session 5: same brief as round 4, caches discouraged).\n\n")
+            "on today's machinery (`tools/seed_matrix.py`, `selftest/run.py` re-run all of them). Round 1 = suffix A/B, round 2 = C/D (asked for changes that need something specific to manifest), round 3 = E/F (boundary and case-analysis changes, behaviour-changing clean-ups), round 4 = G/H (two cooperating sites, multi-step sequences, faults at one point, unusual input shapes), round 5 = I/J (changes a reviewer would wave through: tidy-ups, small features and performance commits whose violation needs a particular configuration, a falsy class object, a non-NFKC key, nested blocks, a round trip through the store ...), round 6 = K/L (Python semantics a reader skims over: one-shot iterators, shared mutable state, `is` vs `==`, truthiness, `finally`, string prefixes, coarse memo keys, off-by-one; collaborators away from the obvious file), round 7 = M/N (structural changes: a responsibility moved between functions or paths, a fast path whose condition is too wide, hoisted or outliving state, reordered steps, a library call with other edge cases, a wrong-branch shim), rounds 8 and 9 = O and P (six changes each in session 5: same brief as round 4, caches discouraged).\n\n")
     f.write("| change | what it does | first evaluation | now: first report of the property's own check | other checks reporting it |\n|---|---|---|---|---|\n")
     for r in rows:
         f.write(f"| {r[0]} | {r[2].replace('|', '/')} | {r[3]} | {r[4].replace('|', '/')} | {r[5]} |\n")
